@@ -891,7 +891,11 @@ def c01(args):
     only = args.get('method')
     bad, seen = [], []
     for method, st in (('euler', 'ito'), ('milstein', 'ito'), ('srk', 'ito'), ('milstein', 'stratonovich'), ('heun', 'stratonovich'),
-                       ('midpoint', 'stratonovich'), ('euler_heun', 'stratonovich'), ('reversible_heun', 'stratonovich'), ('log_ode', 'stratonovich')):
+                       ('midpoint', 'stratonovich'), ('euler_heun', 'stratonovich'), ('reversible_heun', 'stratonovich'), ('log_ode', 'stratonovich'),
+                       ('milstein[grad_free]', 'ito'), ('milstein[grad_free]', 'stratonovich')):
+        # (the diffusion is linear in the state, so the known finding on grad-free Stratonovich Milstein, which needs g'' != 0, does not show here)
+        options = {'grad_free': True} if method.endswith('[grad_free]') else {}
+        method = method.split('[')[0]
         if only and method != only:
             continue
 
@@ -914,17 +918,17 @@ def c01(args):
         sde = S()
         for dt in dts:
             with torch.no_grad():
-                ys = torchsde.sdeint(sde, x0, torch.tensor([0., T], dtype=torch.float64), bm=bm, method=method, dt=dt)
+                ys = torchsde.sdeint(sde, x0, torch.tensor([0., T], dtype=torch.float64), bm=bm, method=method, dt=dt, options=options)
             errs.append(((ys[-1] - truth) ** 2).sum(1).mean().sqrt().item())
         xs, ysl = [math.log(v) for v in dts], [math.log(v) for v in errs]
         mx, my = sum(xs) / len(xs), sum(ysl) / len(ysl)
         slope = sum((x - mx) * (y - my) for x, y in zip(xs, ysl)) / sum((x - mx) ** 2 for x in xs)
         cls = M.select(method, st)
         from torchsde._core.base_sde import ForwardSDE
-        adv = cls(sde=ForwardSDE(sde), bm=bm, dt=0.1, adaptive=False, rtol=1e-3, atol=1e-3, dt_min=1e-5, options={}).strong_order
-        seen.append((method, st, adv, round(slope, 3)))
+        adv = cls(sde=ForwardSDE(sde), bm=bm, dt=0.1, adaptive=False, rtol=1e-3, atol=1e-3, dt_min=1e-5, options=dict(options)).strong_order
+        seen.append((method + ('[grad_free]' if options else ''), st, adv, round(slope, 3)))
         if slope < adv - 0.3:
-            bad.append((method, st, 'advertised', adv, 'empirical', round(slope, 3)))
+            bad.append((method + ('[grad_free]' if options else ''), st, 'advertised', adv, 'empirical', round(slope, 3)))
     return {'reproduced': bool(bad), 'detail': {'slower than advertised': [str(b) for b in bad], 'all': [str(x) for x in seen]}}
 
 
